@@ -559,6 +559,10 @@ def main(ctx):
     ctx.cov['rule'] = ('a case = (data, source chunking or short-read schedule, chunk size, declared length, '
                        'operation history with up to two nested delimit()s); counted once per distinct case; '
                        'non-trivial = some step returned a non-empty value or raised')
+    ctx.cov['unproved_ops'] = ('none inside the modelled domain: sync and async refinement are proved for every '
+                               'operation and nested delimit/pop to depth 2; outside the domain (not generated): '
+                               'negative sizes other than -1, delimiters of length 0 or > chunk_size, nesting deeper '
+                               'than 2, __aiter__ iteration, cyutil.reader')
     n_small = 20000 if quick else 250000
     n_long = 2500 if quick else 25000
     n_big = 150 if quick else 1500
